@@ -465,10 +465,50 @@ def correspond_fit(tier):
 
 
 # ------------------------------------------------------------------------------------------- dof fallback
+# the FORM in which an option / array is handed over must not matter: the value is what counts
+FB_SPECS = [None, None, None, ["float", 1e6], ["float", 1.0], ["float", 7.5], ["float", 12345.678],
+            ["int", 1], ["int", 1000000], ["int", 7], ["np.int64", 12], ["np.int32", 5], ["np.float32", 7.5], ["np.float64", 2.5],
+            ["bool", True]]
+W_FORMS = ("array", "array", "list", "int", "int_list", "float32")
+U_FORMS = ("c64", "c64", "fortran", "float32", "list")
+
+
+def make_fb(spec):
+    """the dof_fallback option in the given form (None = not passed)"""
+    if spec is None:
+        return None
+    form, v = spec
+    return {"float": float, "int": int, "bool": bool, "np.int64": np.int64, "np.int32": np.int32, "np.float32": np.float32,
+            "np.float64": np.float64}[form](v)
+
+
+def form_w(w, form):
+    w = np.asarray(w, dtype=float)
+    if form == "list":
+        return [float(v) for v in w]
+    if form in ("int", "int_list"):
+        wi = np.maximum(1, np.round(w * 16)).astype(np.int64)
+        return wi if form == "int" else [int(v) for v in wi]
+    if form == "float32":
+        return w.astype(np.float32)
+    return w
+
+
+def form_u(u, form):
+    u = np.asarray(u, dtype=float)
+    if form == "fortran":
+        return np.asfortranarray(u)
+    if form == "float32":
+        return u.astype(np.float32)
+    if form == "list":
+        return [[float(v) for v in r] for r in u]
+    return u
+
+
 def run_modes(kind, u, weights, labels, dofs, fb, tape_rng, resample_factor):
     """ModeStatistics.from_particles / from_global with fit stubbed (dof tape) and np.random.choice on a tape"""
     import tempest.modes as tm
-    d = u.shape[1]
+    d = np.asarray(u).shape[1]
     seen = {"fit_in": [], "choice": []}
     it = iter(dofs)
 
@@ -504,6 +544,8 @@ def _dof_values(rng):
         return np.float64(math.inf) if rng.random() < 0.5 else np.float64(math.nan)
     if k < 0.75:
         return rng.choice([1e6, 1.0, 20, 1e300, 5e-324, 2.5, 1e-300, 999999.9999999999])
+    if k < 0.85:
+        return rng.choice([0.6, 0.05, 0.999, 2.45, 4.45, 1.5, 0.3])
     return float(np.float64(rng.uniform(0.05, 200.0)))
 
 
@@ -529,18 +571,27 @@ def correspond_dof(tier):
         labels = np.array([i % K for i in range(N)]) * rng.choice([1, 3])   # raw labels need not be 0..K-1
         g.shuffle(labels)
         dofs = [_dof_values(rng) for _ in range(K)]
-        fb = rng.choice([None, None, 1e6, 1.0, 7.5, 12345.678])
+        fb_spec = rng.choice(FB_SPECS)
+        fb = make_fb(fb_spec)
+        wform, uform = rng.choice(W_FORMS), rng.choice(U_FORMS)
         rf = rng.choice([None, None, 1, 2, 4])
         tape_seed = rng.getrandbits(40)
         import random as _r
+        w_in, u_in = form_w(w, wform), form_u(u, uform)
+        w = np.asarray(w_in, dtype=float)                  # the values actually handed over
+        u = np.asarray(u_in)
+        forms = {"fb_spec": fb_spec, "wform": wform, "uform": uform}
         try:
-            ms, seen = run_modes(kind, u, w, labels, dofs, fb, _r.Random(tape_seed), rf)
+            ms, seen = run_modes(kind, u_in, w_in, labels, dofs, fb, _r.Random(tape_seed), rf)
         except Exception as e:  # noqa
-            c.disagree(input=f"{kind} N={N} K={K} dofs={dofs!r} fb={fb!r}", impl=f"raised {type(e).__name__}: {e}", model="-",
-                       dofs=[repr(float(v)) for v in dofs], fb=fb, kind=kind)
+            c.disagree(input=f"{kind} N={N} K={K} dofs={dofs!r} fb={fb!r} forms={forms}", impl=f"raised {type(e).__name__}: {e}", model="-",
+                       dofs=[repr(float(v)) for v in dofs], fb=None if fb is None else float(fb), kind=kind, **forms)
             c.case((t,), False)
             continue
-        fbv = 1e6 if fb is None else fb
+        fbv = 1e6 if fb is None else float(fb)
+        c.count("fallback_form_" + ("default" if fb_spec is None else fb_spec[0]))
+        c.count("weights_form_" + wform)
+        c.count("u_form_" + uform)
         got = [float(v) for v in np.asarray(ms.degrees_of_freedom).ravel()]
         # resampling: the fit saw exactly u_cluster[idx]
         ok_rs = len(seen["fit_in"]) == K and len(seen["choice"]) == K and len(got) == K
@@ -551,25 +602,27 @@ def correspond_dof(tier):
                 a, size, repl, p, idx = seen["choice"][j]
                 rfv = 4 if rf is None else rf
                 ok_rs &= (a == len(sel) and size == len(sel) * rfv and repl and p is not None and len(p) == len(sel)
-                          and abs(float(np.sum(p)) - 1.0) < 1e-9
-                          and np.allclose(p, wn[sel] / np.sum(wn[sel]), rtol=1e-12, atol=0)
+                          and abs(float(np.sum(p)) - 1.0) < (1e-5 if wform == "float32" else 1e-9)
+                          and np.allclose(p, wn[sel] / np.sum(wn[sel]), rtol=1e-6 if wform == "float32" else 1e-12, atol=0)
                           and np.array_equal(seen["fit_in"][j], u[sel][idx]))
         if not ok_rs:
             c.disagree(input=f"{kind} N={N} K={K} rf={rf}", impl="resampled data handed to the fit is not u_cluster[tape]",
                        model="u_cluster[idx], size n_cluster*resample_factor, p = normalised cluster weights")
         for v, y in zip(dofs, got):
             lines.append(f"dof.F tag={_dof_tag(v)} x={f2hex(0.0 if _dof_tag(v) != 'fin' else float(v))} fb={f2hex(fbv)}")
-            cases.append((kind, float(v), fbv, y))
-        c.case((kind, N, K, [repr(float(v)) for v in dofs], fb, rf, tape_seed), any(_dof_tag(v) != "fin" for v in dofs))
+            cases.append((kind, float(v), fbv, y, forms))
+        c.case((kind, N, K, [repr(float(v)) for v in dofs], repr(fb_spec), wform, uform, rf, tape_seed),
+               any(_dof_tag(v) != "fin" for v in dofs) or (fb_spec is not None and fb_spec[0] != "float"))
         c.count(kind)
         for v in dofs:
             c.count("dof_" + _dof_tag(v))
     res = drv.batch(lines)
-    for (kind, v, fbv, y), line, ans in zip(cases, lines, res):
+    for (kind, v, fbv, y, forms), line, ans in zip(cases, lines, res):
         want = "fin " + f2hex(y)
         if ans != want or not math.isfinite(y):
-            c.disagree(input=line, impl=f"{kind}: fit dof={v!r} fallback={fbv!r} -> degrees_of_freedom={y!r} ({want})", model=ans,
-                       dofs=[repr(v)], fb=fbv, kind=kind)
+            c.disagree(input=line, impl=f"{kind}: fit dof={v!r} fallback={fbv!r} (given as {forms['fb_spec']!r}) -> "
+                                        f"degrees_of_freedom={y!r} ({want})", model=ans,
+                       dofs=[repr(v)], fb=fbv, kind=kind, **forms)
         c.sample({"op": line, "impl": repr(y), "model": ans})
     return c
 
@@ -683,18 +736,24 @@ def equivariant(data, perm, pw, shift):
             f"scale=2^{list(map(int, pw))} shift={np.asarray(shift).tolist()} -> nu {nu1!r} vs {nu2!r}, mu {mu1.tolist()} vs {mu2.tolist()}")
 
 
-def dof_oracle(v, fb):
+def dof_oracle(v, fb, fb_spec=None, wform="array", uform="c64"):
+    """the dof handed on by the two constructors is the finite fitted dof BIT FOR BIT (in (0, inf) whenever the fit's is), the
+    configured fallback exactly when the fit's is not finite -- in whatever form the option and the arrays are given"""
     import random as _r
-    u = np.random.default_rng(5).random((12, 2))
+    u = form_u(np.random.default_rng(5).random((12, 2)), uform)
+    w = form_w(np.ones(12), wform)
+    if fb_spec is not None:
+        fb = make_fb(fb_spec)
     for kind in ("global", "particles"):
         try:
-            ms, _ = run_modes(kind, u, np.ones(12), np.zeros(12, dtype=int), [v], fb, _r.Random(1), None)
+            ms, _ = run_modes(kind, u, w, np.zeros(12, dtype=int), [v], fb, _r.Random(1), None)
         except Exception as e:  # noqa
             return f"{kind}: raised {type(e).__name__}: {e}"
         y = float(np.asarray(ms.degrees_of_freedom).ravel()[0])
-        want = fb if not math.isfinite(float(v)) else float(v)
-        if not (math.isfinite(y) and y == want):
-            return f"ModeStatistics.from_{kind}: fit returned dof={float(v)!r}, fallback={fb!r}: degrees_of_freedom={y!r} (want {want!r})"
+        want = float(fb) if not math.isfinite(float(v)) else float(v)
+        if not (math.isfinite(y) and y == want) or (float(v) > 0 and math.isfinite(float(v)) and not y > 0):
+            return (f"ModeStatistics.from_{kind}(dof_fallback={fb!r} [{type(fb).__name__}], weights as {wform}, u as {uform}): fit returned "
+                    f"dof={float(v)!r}: degrees_of_freedom={y!r} (want {want!r})")
     return None
 
 
@@ -736,11 +795,14 @@ def _oracle_case(case):
     if kind == "handoff":
         from . import c19b
         return c19b.handoff_oracle(case["handoff_cfg"])
+    if kind == "forms":
+        from . import c19b
+        return c19b.forms_oracle(case["forms_case"])
     if kind == "sequence":
         from . import c19b
         return c19b.sequence_oracle(case["sequence_cfg"], case.get("level") == "statement")
     if kind == "dof":
-        return dof_oracle(hex2f(case["dof_hex"]), case["fb"])
+        return dof_oracle(hex2f(case["dof_hex"]), case["fb"], case.get("fb_spec"), case.get("wform", "array"), case.get("uform", "c64"))
     if kind == "recovery":
         return recovery(case["seed"], case["nu_true"], d=case.get("d", 2))
     n, d = case["shape"]
@@ -799,6 +861,21 @@ def search(tier, hints):
                 return found
             if found:
                 break
+    # 0b. a disagreement that involves the FORM of an option / array (int, numpy scalar, bool; list / int / float32 / Fortran arrays):
+    #     look first for a clause of the statement violated by the real constructors with the real fit (dof not in (0, inf), dof not
+    #     the fitted one) on heavy-tailed samples, the hinted cases first
+    def _formy(h):
+        sp = h.get("fb_spec") or (h.get("trainer_case") or {}).get("fb_spec") or (h.get("forms_case") or {}).get("fb_spec")
+        return (sp is not None and sp[0] != "float") or h.get("wform", "array") != "array" or h.get("uform", "c64") != "c64"
+    if any(_formy(h) for h in hints):
+        from . import c19b
+        pool = [h["forms_case"] for h in hints if "forms_case" in h] + \
+               [cs["forms_case"] for cs in c19b.sweep_cases(tier) if cs["kind"] == "forms"]
+        for fc in pool[:40]:
+            if consider({"kind": "forms", "forms_case": fc}):
+                return found
+            if len(found) >= 2:
+                break
     # 1. inputs on which the correspondence disagreed
     for h in hints:
         if "trainer_case" in h:
@@ -811,6 +888,10 @@ def search(tier, hints):
             continue
         if "sequence_cfg" in h:
             if consider({"kind": "sequence", "sequence_cfg": h["sequence_cfg"]}):
+                return found
+            continue
+        if "forms_case" in h:
+            if consider({"kind": "forms", "forms_case": h["forms_case"]}):
                 return found
             continue
         if h.get("kind") == "recovery":
@@ -833,15 +914,23 @@ def search(tier, hints):
             perm, pw, shift = transforms(np.array([hex2f(v) for v in h["data_hex"]], dtype=float).reshape(n, d))
             if consider(dict(base, kind="equiv", perm=perm, pw=pw, shift=shift)):
                 return found
-        if "dofs" in h and h.get("fb") is not None:
+        if "dofs" in h and h.get("fb") is not None and "trainer_case" not in h:
             for v in h["dofs"]:
-                if consider({"kind": "dof", "dof_hex": f2hex(float(v)), "fb": h["fb"]}):
+                if consider({"kind": "dof", "dof_hex": f2hex(float(v)), "fb": h["fb"], "fb_spec": h.get("fb_spec"),
+                             "wform": h.get("wform", "array"), "uform": h.get("uform", "c64")}):
                     return found
     # 2. dof fallback: the two constructors directly, every path of Trainer.run, the hand-off to the kernel in real runs
     for v in (math.inf, math.nan, 3.5, 1e6, 1e300):
         for fb in (1e6, 7.5):
             if consider({"kind": "dof", "dof_hex": f2hex(v), "fb": fb}):
                 return found
+    # ... with the option / the arrays given in other forms (int, numpy scalars, bool; list / int / float32 / Fortran arrays)
+    for v in (0.6, 2.45, math.inf, 0.05, 171.3, math.nan):
+        for spec in (["int", 1], ["int", 1000000], ["np.int64", 12], ["np.float32", 7.5], ["bool", True]):
+            for wform, uform in (("array", "c64"), ("int_list", "float32"), ("list", "fortran")):
+                if consider({"kind": "dof", "dof_hex": f2hex(v), "fb": float(make_fb(spec)), "fb_spec": spec, "wform": wform,
+                             "uform": uform}):
+                    return found
     from . import c19b
     for case in c19b.sweep_cases(tier):
         if consider(case):
